@@ -422,8 +422,10 @@ def nativeCall (sub : SubRun) (g : G) (c : Nat) (name : String) (selfTag selfAdd
      | .float _ => (g, .ok p0)
      | .str _ => (g, .unsup "toFloat(str): strconv.ParseFloat")
      | _ => (g, .err "(toFloat)类型错误: 只能是数字类型"))
-  else if name == "toStr" then (g, .ok (.str (valToString g.heap p0)))
-  else if name == "repr" then (g, .ok (.str (valToRepr g.heap p0)))
+  else if name == "toStr" then
+    (if (valToString g.heap p0).utf8ByteSize > maxStringLength then (g, .err "不能一次性创建过长的字符串") else (g, .ok (.str (valToString g.heap p0))))
+  else if name == "repr" then
+    (if (valToRepr g.heap p0).utf8ByteSize > maxStringLength then (g, .err "不能一次性创建过长的字符串") else (g, .ok (.str (valToRepr g.heap p0))))
   else if name == "typeId" then (g, .ok (.int (typeIdOf p0)))
   else if name == "load" || name == "loadRaw" then
     (match p0 with
